@@ -42,8 +42,9 @@ Lemma thread_step_effect s th s' th' :
   thread_step s th = (s', th') -> t_prog th' = t_prog th /\ effect s th s' th'.
 Proof.
   destruct th as [p st]. unfold thread_step, store_message. cbn [t_prog t_st].
-  destruct p as [f t|f fl|a]; destruct st; intros H;
+  destruct p as [f t|f fl|a|f t ti|ti]; destruct st; intros H;
   repeat match type of H with
+   | context [match mboxes ?a with _ => _ end] => destruct (mboxes a) eqn:?
    | context [match find_name ?a ?b with _ => _ end] => destruct (find_name a b) eqn:?
    | context [match create_mailbox_row ?a ?b ?c with _ => _ end] =>
        destruct (create_mailbox_row a b c) as [[? ?]|] eqn:?
